@@ -10,6 +10,8 @@ def get(name):
         from .stream import stream_harness as fn
     elif name == "hist":
         from .hist import h_hist as fn
+    elif name == "hist_pair":
+        from .hist import h_hist_pair as fn
     else:
         from . import lemmas
         fn = getattr(lemmas, "h_" + name)
